@@ -100,6 +100,7 @@ impl Compiler {
             break_jumps: Vec::new(),
             continue_jumps: Vec::new(),
             is_for_loop: true,
+            scope_depth: self.scopes.len(),
         });
 
         self.compile_stmt(body)?;
